@@ -12,6 +12,7 @@ func LeafAlphabet(big bool) []*Node {
 		{K: NField, Field: f, V: Int(-3)},
 		{K: NCmp, Field: f, Cmp: ">=", V: Int(7)},
 		{K: NRange, Field: f, Lo: Int(1), Hi: Int(5), IncLo: true, IncHi: true},
+		{K: NTerm, V: RawWord("'s t'")},
 	}
 	if big {
 		leaves = append(leaves,
@@ -21,7 +22,6 @@ func LeafAlphabet(big bool) []*Node {
 			&Node{K: NCmp, Field: f, Cmp: "<", V: Float("2.5")},
 			&Node{K: NRange, Field: f, Lo: nil, Hi: Word("z"), IncLo: false, IncHi: false},
 			&Node{K: NList, Field: f, Vals: []*Val{Word("x"), Int(2), Quoted("y z")}},
-			&Node{K: NTerm, V: RawWord("'s t'")},
 		)
 	}
 	return leaves
